@@ -252,6 +252,12 @@ pub fn default_block(fd: i32, has_timeout: bool) -> BlockAction {
     BlockAction::Retry
 }
 
+/// Number of entries in the execution log so far (a managed thread holding the baton can bracket
+/// a call with it to find the segments the call was made of).
+pub fn exec_len() -> usize {
+    lock().exec.len()
+}
+
 pub fn take_stuck() -> bool {
     std::mem::replace(&mut lock().stuck, false)
 }
